@@ -503,6 +503,14 @@ def c14_stages(ctx):
     lib.fuzz_stage(ctx)
 
 
+# ------------------------------------------------------------------------ C20
+def c20_stages(ctx):
+    import lib
+    cfg = ["CONSTANT MaxObjs = 2", "SPECIFICATION Spec", "INVARIANTS InvNoResidue InvDebug", "CHECK_DEADLOCK FALSE"]
+    lib.plain_tlc(ctx, "lifecycle_model", "FrostLifecycle", cfg, "", workers=4)
+    lib.lifecycle_stage(ctx)
+
+
 PROPS = {
     "C01": dict(slices=c01_slices, fatal=C01_FATAL, traces=True, level="model_checking",
                 rule="TLC enumerates every behaviour of the C01 schedule within each slice's constants; "
@@ -614,6 +622,17 @@ PROPS = {
                            "the structured input space, raw bytes are explored by the harness",
                 assumptions=["the harness's dev profile keeps overflow-checks and debug-assertions on",
                              "catch_unwind observes every panic (panic = abort is not configured)"]),
+    "C20": dict(stages=[c20_stages], fatal=set(), level="exploration",
+                rule="for each of the 6 real suites and each secret-bearing type (9 types): box a value holding known secret scalars, "
+                     "install the global-allocator observer, drop it and scan every block freed for the in-memory representation of "
+                     "the secrets (control: a plain copy of the same secrets dropped without wiping must be seen); zeroize() then "
+                     "getters; Debug ({:?} and {:#?}) scanned for the hex of every secret encoding and of every 8-byte window of it in "
+                     "both byte orders; TLC checks the events against the clause table of spec/FrostLifecycle.tla; non-trivial = "
+                     "(suite, type, clause, value) case with a secret of at least 8 non-zero bytes",
+                level_note="residual memory and Debug text are properties of compiled object layout and derive macros, not of protocol "
+                           "state (DESIGN 6.3): the lifecycle model is a clause table, the weight is carried by the observer; the harness's "
+                           "dev profile (opt-level 1, dependencies 2) is what is observed",
+                assumptions=["the allocator wrapper sees every deallocation of the process", "SigningShare and Nonce are Copy: no wipe on drop, as documented in the book"]),
     "C04": dict(slices=c04_slices, fatal=C04_FATAL, level="model_checking", traces=True,
                 rule="TLC enumerates every filling of the share slots (honest / off by d / negated / zero / another "
                      "signer's / another session's share) for every signer subset within the slice constants and runs "
